@@ -203,6 +203,18 @@ CHECKS = {
               "polynomial integrands, curvature/torsion scalar and vector forms vs the defining formulas, Frenet orthonormality, analytic circle/disc/cylinder/sphere/torus values under refinement."),
         note=TB + " C16: numpy's Gauss-Legendre nodes/weights and sqrt are outside the model.",
         design='DESIGN.md section 8, C16'),
+    'C17': dict(
+        engine='topology',
+        technique='Coq proof (algebra of signed permutations for any parametric dimension, exhaustive group facts for pardim <= 3 by kernel computation, soundness of the compute search) + differential run of Orientation.compute vs the extracted model + cell-complex counts on random conforming complexes',
+        text=("PARTIAL proof level. Theorems in Properties/C17.v: composition of orientations is associative with the identity as unit and preserves well-formedness (any pardim); for pardim <= 3 "
+              "the orientations are exactly the 2/8/48 signed permutations, closed under composition, each with a two-sided inverse (finite check inside the kernel); map_section and the index "
+              "map of map_array are compatible with composition; an orientation returned by compute maps the (weight-normalised) control net of b onto that of a within the tolerances with "
+              "matching bases. Not proved (L2 only): the catalogue itself (one node per geometric entity, neighbours, boundary()), view_section, twins and handedness handling. "
+              "Correspondence: L1 Orientation.compute on re-oriented random objects vs the extracted model; L2 random conforming complexes (blocks, L/T/O shapes, 1-3 dimensions, orders 2-3, "
+              "rational or not) with every patch in a random orientation and random insertion order: node counts vs the cell complex, neighbours, boundary, lookups of re-oriented entities, "
+              "re-adding, tolerance-level perturbation; orientation laws on the implementation; twins, handedness, self-connected patches."),
+        note=TB + " C17: Properties/C17.v is closed under the global context (no axioms).",
+        design='DESIGN.md section 8, C17'),
 }
 
 PENDING_REASON = "not claimed in this revision: model/theorems for this property are still being built (see DESIGN.md section 8 for the plan)"
